@@ -85,7 +85,8 @@ def jobObj (k : Kind) : Role → Bool
 * a fork's own directory is written by mrp only: cache = directory;
 * `_jobinfo` on disk is known to mrp;
 * a job object has `_log`/`_complete`/`_assert` only if it was submitted (`_jobinfo`);
-* `_queued_locally` is gone once the job has started. -/
+* `_queued_locally` only in a submitted job object (the job manager removes it when the process has
+  started — a separate step, `U`: the job may even have finished meanwhile). -/
 structure ObjInv (k : Kind) (r : Role) (m : Meta) : Prop where
   sub : ∀ y, m.seen.has y = true → m.disk.has y = true
   forkEq : r = .fork → ∀ y, m.disk.has y = true → m.seen.has y = true
@@ -93,8 +94,7 @@ structure ObjInv (k : Kind) (r : Role) (m : Meta) : Prop where
   kk : jobObj k r = true →
     (m.disk.has .log = true ∨ m.disk.has .complete = true ∨ m.disk.has .assert = true) →
     m.disk.has .jobinfo = true
-  jj : jobObj k r = true → m.disk.has .queuedLocally = true →
-    m.disk.has .log = false ∧ m.disk.has .complete = false ∧ m.disk.has .assert = false
+  jj : jobObj k r = true → m.disk.has .queuedLocally = true → m.disk.has .jobinfo = true
 
 theorem objInv_empty (k r) : ObjInv k r {} := by
   constructor <;> simp
@@ -130,10 +130,10 @@ theorem objInv_unq {k r m} (h : ObjInv k r m) : ObjInv k r (unq m) := by
   constructor <;> simp only [unq, has_del] <;> grind
 
 theorem objInv_joblog {k r m} (h : ObjInv k r m) (hr : r.isJob = true)
-    (hj : m.disk.has .jobinfo = true) : ObjInv k r (toDisk .log (unq m)) := by
+    (hj : m.disk.has .jobinfo = true) : ObjInv k r (toDisk .log m) := by
   obtain ⟨h1, h2, h3, h4, h5⟩ := h
   have hr' : r ≠ .fork := by intro e; subst e; simp [Role.isJob] at hr
-  constructor <;> simp only [toDisk, unq, has_add, has_del] <;> grind
+  constructor <;> simp only [toDisk, has_add] <;> grind
 
 theorem objInv_jobend {k r m x} (h : ObjInv k r m) (hr : r.isJob = true)
     (hj : m.disk.has .jobinfo = true) (hl : m.disk.has .log = true)
@@ -178,7 +178,7 @@ theorem apply_m (s : State) (e : Ev) (o' : Obj) : (apply s e).m o' =
     | .D o x => if o = o' then see x (s.m o) else s.m o'
     | .U o _ => if o = o' then unq (s.m o) else s.m o'
     | .launch o => if o = o' then put .queuedLocally (put .jobinfo (s.m o)) else s.m o'
-    | .joblog o => if o = o' then toDisk .log (unq (s.m o)) else s.m o'
+    | .joblog o => if o = o' then toDisk .log (s.m o) else s.m o'
     | .jobend o x => if o = o' then toDisk x (s.m o) else s.m o'
     | .silentfail o => if o = o' then put .errors (s.m o) else s.m o'
     | .reset o => if o = o' then {} else s.m o'
@@ -251,9 +251,14 @@ theorem en_fork {s : State} {n f} (h : enabled s (.fork n f) = true) :
   · exact absurd hp d
   · exact d
 
+theorem en_forkorder' {s : State} {n l} (h : enabled s (.forkorder n l) = true) :
+    s.phase = .loading ∧ isSubNodup l (s.forksOf n) = true ∧
+    ∀ f ∈ s.forksOf n, f ∈ l ∨ forkEmpty s n f = true := by
+  simpa [enabled, guards, and_assoc] using h
+
 theorem en_forkorder {s : State} {n l} (h : enabled s (.forkorder n l) = true) :
-    s.phase = .loading ∧ isSubNodup l (s.forksOf n) = true := by
-  simpa [enabled, guards] using h
+    s.phase = .loading ∧ isSubNodup l (s.forksOf n) = true :=
+  ⟨(en_forkorder' h).1, (en_forkorder' h).2.1⟩
 
 theorem en_nodestate {s : State} {n st} (h : enabled s (.nodestate n st) = true) :
     s.phase ≠ .crashed ∧ n < s.nodes.length ∧ st = nodeState s n := by
